@@ -1280,7 +1280,7 @@ def params_from_backend(obs_length=300,
     df = chan_bw / fftlength
 
     dt = int_factor / df
-    tchans = int(obs_length / dt)
+    tchans = int(float(obs_length) / dt)
 
     param_dict = {
         'tchans': tchans,
